@@ -497,6 +497,8 @@ def check_acquisition(mon, tr, step):
     S0, P0, U0 = ph["pre"]
     fam = info.get("family")
     active = set(S0) | ((U0 or set()) if fam == "paveba" else (P0 or set()) if fam in ("vogp", "epal") else set())
+    if fam == "decoupled":
+        active = set(range(case["K"]))
     reqs = tr.rec.log[ph["req_start"]:ph["req_end"]]
     X = case["X"]
     d = X.shape[1]
@@ -533,11 +535,13 @@ def check_acquisition(mon, tr, step):
             mon.violation("acq:not-every-active-once", f"{v} round {step['round_pre']}: sampled {got}, active {sorted(active)}", pub)
         mon.count("bandit_rounds")
     else:
-        opts = [o for o in OPT_LOG[ph["opt_start"]:ph["opt_end"]] if not o.get("nested")]
+        allo = OPT_LOG[ph["opt_start"]:ph["opt_end"]]
+        opts = [o for o in allo if not o.get("nested")]
+        nested = [o for o in allo if o.get("nested")]
         if len(opts) != 1:
             mon.count("optimiser_calls_unexpected")
         for o in opts:
-            _check_optimiser_record(mon, tr, step, ph, o, active, requested, design_of, pub)
+            _check_optimiser_record(mon, tr, step, ph, o, active, requested, design_of, pub, nested)
     # ---- data delivery: exactly the returned observations reach the model ----------------
     before = ph["model_before"]
     after = ph["model_after"]
@@ -563,7 +567,29 @@ def check_acquisition(mon, tr, step):
         mon.violation("data:delta-mismatch", f"{v} round {step['round_pre']}: model data grew by {sorted(delta, key=repr)[:4]}..., requests returned {want[:4]}...", pub)
 
 
-def _check_optimiser_record(mon, tr, step, ph, o, active, requested, design_of, pub):
+def _check_joint_tables(mon, tr, step, ph, o, picks, design_of, pub):
+    v = tr.case["variant"]
+    tables = ACQ_LOG[o["acq_slice"][0]:o["acq_slice"][1]]
+    remaining = None
+    for k, (t, pick) in enumerate(zip(tables, picks)):
+        ids = [design_of(x) for x in t["x"]]
+        tv = np.asarray(t["values"], float)
+        mon.count("tables_checked")
+        best = tv.max()
+        if pick not in ids or tv[ids.index(pick)] < best - 1e-12 * (1 + abs(best)):
+            mon.violation("acq:not-argmax", f"{v} round {step['round_pre']}: pick {k} is design {pick} with value "
+                          f"{tv[ids.index(pick)] if pick in ids else None}, table maximum {best}", pub)
+        elif abs(tv[ids.index(pick)] - float(np.asarray(o["values"]).reshape(-1)[k])) > 1e-12 * (1 + abs(best)):
+            mon.violation("acq:value-not-from-table", f"{v}: pick {pick} reported {np.asarray(o['values']).reshape(-1)[k]}, table has {tv[ids.index(pick)]}", pub)
+        if remaining is not None and sorted(ids) != sorted(remaining):
+            mon.violation("acq:chosen-not-removed", f"{v}: table {k} offered {sorted(ids)}, expected {sorted(remaining)}", pub)
+        remaining = [i for i in ids if i != pick]
+        _check_rule(mon, tr, ph, t, ids, tv, pub)
+    if len(tables) != len(picks):
+        mon.violation("acq:table-count", f"{v}: {len(tables)} acquisition evaluations for {len(picks)} picks", pub)
+
+
+def _check_optimiser_record(mon, tr, step, ph, o, active, requested, design_of, pub, nested=()):
     case = tr.case
     v = case["variant"]
     tables = ACQ_LOG[o["acq_slice"][0]:o["acq_slice"][1]]
@@ -575,6 +601,7 @@ def _check_optimiser_record(mon, tr, step, ph, o, active, requested, design_of, 
         mon.violation("acq:choices-not-active-set", f"{v}: optimiser was offered {offered}, active set {sorted(active)}", pub)
     picks = [design_of(x) for x in cands]
     n_avail = len(active) if o["kind"] == "joint" else len(active) * case["m"]
+    tables = ACQ_LOG[o["acq_slice"][0]:o["acq_slice"][1]]
     if len(picks) != min(q, n_avail):
         mon.violation("acq:batch-size", f"{v}: batch of {len(picks)} for q={q}, {n_avail} available", pub)
     if o["kind"] == "joint":
@@ -583,19 +610,7 @@ def _check_optimiser_record(mon, tr, step, ph, o, active, requested, design_of, 
         vals = np.asarray(o["values"], float)
         if (np.diff(vals) > 1e-12 * (1 + np.abs(vals).max())).any():
             mon.violation("acq:batch-not-non-increasing", f"{v}: batch values {vals}", pub)
-        remaining = None
-        for k, (t, pick) in enumerate(zip(tables, picks)):
-            ids = [design_of(x) for x in t["x"]]
-            tv = np.asarray(t["values"], float)
-            mon.count("tables_checked")
-            best = tv.max()
-            if pick not in ids or tv[ids.index(pick)] < best - 1e-12 * (1 + abs(best)):
-                mon.violation("acq:not-argmax", f"{v} round {step['round_pre']}: pick {k} is design {pick} with value "
-                              f"{tv[ids.index(pick)] if pick in ids else None}, table maximum {best}", pub)
-            if remaining is not None and sorted(ids) != sorted(remaining):
-                mon.violation("acq:chosen-not-removed", f"{v}: table {k} offered {sorted(ids)}, expected {sorted(remaining)}", pub)
-            remaining = [i for i in ids if i != pick]
-            _check_rule(mon, tr, ph, t, ids, tv, pub)
+        _check_joint_tables(mon, tr, step, ph, o, picks, design_of, pub)
         got = [i for i, _, _ in requested]
         if got != picks:
             mon.violation("acq:request-differs-from-picks", f"{v}: optimiser picked {picks}, problem was asked {got}", pub)
@@ -607,24 +622,27 @@ def _check_optimiser_record(mon, tr, step, ph, o, active, requested, design_of, 
         vals = np.asarray(o["values"], float)
         if (np.diff(vals) > 1e-12 * (1 + np.abs(vals).max())).any():
             mon.violation("acq:batch-not-non-increasing", f"{v}: batch values {vals}", pub)
-        # full (design, objective) table from the first table of every objective
-        full = {}
-        for t in tables:
-            ids = [design_of(x) for x in t["x"]]
-            if sorted(ids) == sorted(active):
-                for i, val in zip(ids, np.asarray(t["values"], float)):
-                    full.setdefault((i, int(t["evaluation_index"])), float(val))
-                _check_rule(mon, tr, ph, t, ids, np.asarray(t["values"], float), pub)
-        mon.count("tables_checked", len(tables))
-        if len(full) == len(active) * case["m"]:
-            order = sorted(full.values(), reverse=True)
-            for k, (pr, val) in enumerate(zip(pairs, vals)):
-                if pr not in full or abs(full[pr] - val) > 1e-12 * (1 + abs(val)):
-                    mon.violation("acq:value-not-from-table", f"{v}: pair {pr} reported {val}, table has {full.get(pr)}", pub)
-                elif val < order[k] - 1e-12 * (1 + abs(order[k])):
-                    mon.violation("acq:not-argmax", f"{v} round {step['round_pre']}: batch item {k} = {pr} has value {val}, the {k + 1}-th largest table value is {order[k]}", pub)
+        # per-objective greedy lists (nested joint optimisations), each judged against its own tables
+        pool = []
+        for k_obj, no in enumerate(nested):
+            npicks = [design_of(x) for x in np.atleast_2d(no["candidates"])]
+            if len(set(npicks)) != len(npicks):
+                mon.violation("acq:duplicate-in-batch", f"{v}: objective {k_obj} list {npicks}", pub)
+            _check_joint_tables(mon, tr, step, ph, no, npicks, design_of, pub)
+            for i, val in zip(npicks, np.asarray(no["values"], float).reshape(-1)):
+                pool.append(((i, k_obj), float(val)))
+        if len(nested) != case["m"]:
+            mon.count("decoupled_nested_incomplete")
         else:
-            mon.count("decoupled_table_incomplete")
+            order = sorted((val for _, val in pool), reverse=True)
+            lookup = {}
+            for pr, val in pool:
+                lookup.setdefault(pr, val)
+            for k, (pr, val) in enumerate(zip(pairs, vals)):
+                if pr not in lookup or abs(lookup[pr] - val) > 1e-12 * (1 + abs(val)):
+                    mon.violation("acq:value-not-from-table", f"{v}: pair {pr} reported {val}, per-objective list has {lookup.get(pr)}", pub)
+                elif val < order[k] - 1e-12 * (1 + abs(order[k])):
+                    mon.violation("acq:not-argmax", f"{v} round {step['round_pre']}: batch item {k} = {pr} has value {val}, the {k + 1}-th largest candidate value is {order[k]}", pub)
         got = [(i, k) for i, k, _ in requested]
         if got != pairs:
             mon.violation("acq:request-differs-from-picks", f"{v}: optimiser picked {pairs}, problem was asked {got}", pub)
